@@ -271,10 +271,17 @@ func canEmitDirectly(k1, k2 reflect.Kind) bool {
 	return kindToType(k1) == kindToType(k2)
 }
 
+// maxClosureVarsCount is the maximum number of variables that a function
+// literal can refer to: the references are stored as int16 indexes.
+const maxClosureVarsCount = 1 << 15 // 32768
+
 // setFunctionVarRefs sets the var refs of a function.
 // This method operates on the current function builder, so must be called
 // before changing or saving it.
 func (em *emitter) setFunctionVarRefs(fn *runtime.Function, closureVars []ast.Upvar) {
+	if len(closureVars) > maxClosureVarsCount {
+		panic(newLimitExceededError(fn.Pos, fn.File, "captured variables count exceeded %d", maxClosureVarsCount))
+	}
 	refs := make([]int16, len(closureVars))
 	for i := range closureVars {
 		v := &closureVars[i]
